@@ -168,6 +168,9 @@ func genFrames(r *fw.Rng, maxN int, small bool) [][]byte {
 // runNonBlocking feeds stream in the given chunks and checks every Decode against the cursor model.
 // badAt >= 0 marks the stream offset of a malformed prefix (value < 4).
 func runNonBlocking(c *fw.Case, name string, cd codec.Codec, stream []byte, cuts []int, sched string) {
+	if c.Failed() {
+		return // this case is decided; on a broken tree every further call may allocate gigabytes (desynchronised prefixes)
+	}
 	conn := &feedConn{}
 	cur, fed := 0, 0
 	var got [][]byte
@@ -240,6 +243,9 @@ func runNonBlocking(c *fw.Case, name string, cd codec.Codec, stream []byte, cuts
 
 // runBlocking serves the stream through chunkConn and checks the frames returned before the fault.
 func runBlocking(c *fw.Case, name string, cd codec.Codec, stream []byte, frameEnds []int, cuts []int, faultAt int, fault error, sched string) {
+	if c.Failed() {
+		return // this case is decided; on a broken tree every further call may allocate gigabytes (desynchronised prefixes)
+	}
 	conn := &chunkConn{stream: stream, cuts: cuts, faultAt: faultAt, fault: fault, errWithData: c.R.Chance(1, 3)}
 	if conn.errWithData {
 		sched += "+err-with-data"
@@ -328,6 +334,9 @@ func (timeoutErr) Temporary() bool { return true }
 // goes on delivering. Whatever the extractor does with such an error — give up (the property's wording) or carry
 // on — it must never hand out octets that are not exactly the next frame.
 func runBlockingTransient(c *fw.Case, name string, cd codec.Codec, stream []byte, frameEnds []int, cuts []int, faultAt int, fault error) {
+	if c.Failed() {
+		return // this case is decided; on a broken tree every further call may allocate gigabytes (desynchronised prefixes)
+	}
 	conn := &chunkConn{stream: stream, cuts: cuts, faultAt: faultAt, fault: fault, transient: true}
 	fail := func(kind, format string, args ...any) {
 		c.Failf("blocking-"+kind+"/"+name, "%s\nstream(%d)=%s\nframe ends=%v chunk ends=%v one-off failure at %d (%v), the stream continues afterwards", fmt.Sprintf(format, args...), len(stream), hx(stream), frameEnds, cuts, faultAt, fault)
